@@ -3,13 +3,6 @@
 From ZV Require Import Base.Bytes Base.Res C19.Broadcast C19.BroadcastFacts C20.Model C20.Lemmas C20.Steps C20.Inv C20.InvG1.
 From Coq Require Import Lia Permutation.
 
-Section G2.
-Variable matches : nat -> msg -> bool.
-Notation tstep := (Steps.tstep matches).
-Notation Inv := (Inv.Inv matches).
-Notation targets := (Model.targets matches).
-Notation key_matches := (Model.key_matches matches).
-
 Ltac simp :=
   repeat match goal with x := _ |- _ => subst x end;
   cbn [chans senders subs streams adds drops tasks reader socket incoming dead cloned
@@ -21,6 +14,169 @@ Ltac rm_frame :=
     let H := fresh "Hfr" in pose proof (rm_apply_frame _ _ _ _ Hr) as H;
     destruct H as (?Esnd & ?Estr & ?Eadd & ?Edrp & ?Etsk & ?Erd & ?Esock & ?Einc & ?Edead & ?Ecl)
   end.
+
+
+(* ---- channel contents after the steps that close channels ---- *)
+Lemma chan_at_close_all s c : c < length (chans s) ->
+  chan_at (with_chans s (close_all s)) c = if mem_nat c (map snd (senders s)) then close (chan_at s c) else chan_at s c.
+Proof.
+  intros H. unfold chan_at, close_all. cbn [chans with_chans]. rewrite (nth_map_combine_seq _ _ _ (new_chan 1)) by assumption. reflexivity.
+Qed.
+
+Definition same_or_closed (a b : chan item) : Prop := b = a \/ b = close a.
+
+Lemma soc_cursor a b id : same_or_closed a b -> cursor b id = cursor a id.
+Proof. intros [->| ->]; reflexivity. Qed.
+Lemma soc_log a b : same_or_closed a b -> log b = log a.
+Proof. intros [->| ->]; reflexivity. Qed.
+Lemma soc_rcv a b : same_or_closed a b -> rcv b = rcv a.
+Proof. intros [->| ->]; reflexivity. Qed.
+Lemma soc_tail a b : same_or_closed a b -> tail b = tail a.
+Proof. intros [->| ->]; reflexivity. Qed.
+
+Lemma rm_apply_chan s r s1 o c : rm_apply s r = (s1, o) -> same_or_closed (chan_at s c) (chan_at s1 c).
+Proof.
+  intros H. apply rm_apply_spec in H. destruct H; try (left; reflexivity).
+  destruct (Nat.eq_dec c (e_ch e)) as [->|Hne].
+  - destruct (Nat.lt_ge_cases (e_ch e) (length (chans s))) as [Hlt|Hge].
+    + right. now rewrite chan_at_set_same.
+    + left. unfold chan_at, set_chan. cbn. rewrite !nth_overflow; rewrite ?length_upd; try lia. reflexivity.
+  - left. now rewrite chan_at_set_other.
+Qed.
+
+Lemma rm_sender_chan s r c c' : same_or_closed (chan_at s c') (chan_at (rm_sender s r c) c').
+Proof.
+  unfold rm_sender. destruct (Nat.eq_dec c' c) as [->|Hne].
+  - destruct (Nat.lt_ge_cases c (length (chans s))) as [Hlt|Hge].
+    + right. now rewrite chan_at_set_same.
+    + left. unfold chan_at, set_chan. cbn. rewrite !nth_overflow; rewrite ?length_upd; try lia. reflexivity.
+  - left. now rewrite chan_at_set_other.
+Qed.
+
+Lemma close_all_chan s c : same_or_closed (chan_at s c) (chan_at (with_chans s (close_all s)) c).
+Proof.
+  destruct (Nat.lt_ge_cases c (length (chans s))) as [Hlt|Hge].
+  - rewrite chan_at_close_all by assumption. destruct (mem_nat c (map snd (senders s))); [now right | now left].
+  - left. unfold chan_at. cbn. rewrite !nth_overflow; rewrite ?length_close_all; try lia. reflexivity.
+Qed.
+
+(* ---- who owns the receivers ---- *)
+Definition own_cur (s : sys) : Prop :=
+  forall c id p, c < length (chans s) -> cursor (chan_at s c) id = Some p ->
+    p <= tail (chan_at s c) /\ ((exists st, lookup (streams s) id = Some st /\ s_ch st = c) \/ (exists r, a2 s id r c)).
+Definition own_stream (s : sys) : Prop :=
+  forall sid st, lookup (streams s) sid = Some st ->
+    s_ch st < length (chans s) /\ (exists p, cursor (chan_at s (s_ch st)) sid = Some p) /\ (s_rule st = None -> s_ch st = 0).
+
+(* steps that move no cursor and touch neither the stream table nor the calls in A2 *)
+Lemma own_frame s s' : own_cur s /\ own_stream s -> length (chans s') = length (chans s) ->
+  (forall c id, c < length (chans s) -> cursor (chan_at s' c) id = cursor (chan_at s c) id /\ tail (chan_at s c) <= tail (chan_at s' c)) ->
+  streams s' = streams s -> (forall sid r c, a2 s sid r c -> a2 s' sid r c) -> own_cur s' /\ own_stream s'.
+Proof.
+  intros [Icur Istr] Hlen Hch Hst Ha2. split.
+  - intros c id p Hc Hcur. rewrite Hlen in Hc. destruct (Hch c id Hc) as [E Ht]. rewrite E in Hcur.
+    destruct (Icur _ _ _ Hc Hcur) as [Hp Ho]. split; [lia|]. rewrite Hst. destruct Ho as [Ho|(r & Ho)]; [now left | right; eauto].
+  - intros sid st Hl. rewrite Hst in Hl. destruct (Istr _ _ Hl) as (Hc & (p & Hp) & Hn). rewrite Hlen. split; [assumption|]. split; [|assumption].
+    exists p. now rewrite (proj1 (Hch _ sid Hc)).
+Qed.
+
+Lemma a2_fwd_put s s' sid a sid' r c : adds s' = put (adds s) sid a -> (forall a0, lookup (adds s) sid = Some a0 -> forall c0, a_pc a0 <> A2 c0) ->
+  a2 s sid' r c -> a2 s' sid' r c.
+Proof.
+  unfold a2. intros -> Hpc (a' & Ha & Hr & Hp). destruct (Nat.eq_dec sid' sid) as [->|Hne].
+  - destruct (Hpc _ Ha c Hp).
+  - exists a'. rewrite lookup_put_other by assumption. tauto.
+Qed.
+Lemma a2_fwd_del s s' sid sid' r c : adds s' = del (adds s) sid -> (forall a0, lookup (adds s) sid = Some a0 -> forall c0, a_pc a0 <> A2 c0) ->
+  a2 s sid' r c -> a2 s' sid' r c.
+Proof.
+  unfold a2. intros -> Hpc (a' & Ha & Hr & Hp). destruct (Nat.eq_dec sid' sid) as [->|Hne].
+  - destruct (Hpc _ Ha c Hp).
+  - exists a'. rewrite lookup_del_other by assumption. tauto.
+Qed.
+
+
+(* a stream value goes away *)
+Lemma own_bury s sid st : own_cur s /\ own_stream s -> lookup (streams s) sid = Some st ->
+  own_cur (bury s sid st) /\ own_stream (bury s sid st).
+Proof.
+  intros [Icur Istr] Hl. destruct (Istr _ _ Hl) as (Hc & _ & _). split.
+  - intros c id p Hlt Hcur. rewrite chans_bury, length_upd in Hlt. rewrite streams_bury. autorewrite with chat in *.
+    assert (Ha2 : forall r, a2 (bury s sid st) id r c <-> a2 s id r c) by (intros r; unfold a2; now rewrite adds_bury).
+    destruct (Nat.eq_dec c (s_ch st)) as [->|Hne].
+    + rewrite chan_at_set_same in * by assumption. destruct (Nat.eq_dec id sid) as [->|Hid]; [now rewrite cursor_drop_same in Hcur|].
+      rewrite cursor_drop_other in Hcur by assumption. destruct (Icur _ _ _ Hlt Hcur) as [Hp Ho]. split; [exact Hp|].
+      destruct Ho as [(st' & Hs' & Hc')|(r & Ha)]; [left | right; exists r; now apply Ha2]. exists st'. now rewrite lookup_del_other.
+    + rewrite chan_at_set_other in * by assumption. destruct (Icur _ _ _ Hlt Hcur) as [Hp Ho]. split; [exact Hp|].
+      destruct Ho as [(st' & Hs' & Hc')|(r & Ha)]; [left | right; exists r; now apply Ha2]. exists st'. split; [|assumption].
+      rewrite lookup_del_other; [assumption|]. intros ->. rewrite Hl in Hs'. inversion Hs'; subst. congruence.
+  - intros sid' st' Hl'. rewrite streams_bury in Hl'. rewrite chans_bury, length_upd. autorewrite with chat.
+    destruct (Nat.eq_dec sid' sid) as [->|Hid]; [now rewrite lookup_del_same in Hl'|].
+    rewrite lookup_del_other in Hl' by assumption. destruct (Istr _ _ Hl') as (Hc' & (p & Hp) & Hn).
+    split; [assumption|]. split; [|assumption]. exists p. destruct (Nat.eq_dec (s_ch st') (s_ch st)) as [E|Hne].
+    + rewrite E in *. rewrite chan_at_set_same by assumption. now rewrite cursor_drop_other.
+    + now rewrite chan_at_set_other.
+Qed.
+
+Ltac tsimp :=
+  repeat match goal with x := _ |- _ => subst x end;
+  cbn [chans senders subs streams adds drops tasks reader socket incoming dead cloned
+       with_chans with_senders with_subs with_streams with_adds with_drops with_tasks with_reader with_socket with_incoming
+       with_dead with_cloned mk_stream got_more add_at s_rule s_ch s_from s_got a_rule a_q a_pc] in *.
+
+Lemma a2_same_adds s s' : adds s' = adds s -> forall sid r c, a2 s sid r c -> a2 s' sid r c.
+Proof. unfold a2. intros ->. tauto. Qed.
+
+Lemma chans_set_chan s c x : chans (set_chan s c x) = upd (chans s) c x.  Proof. reflexivity. Qed.
+
+(* a new receiver on an existing channel (at the tail: subscribe; at another receiver's position: clone), owned by a new stream *)
+Lemma own_newrcv s sid c chn q stn : own_cur s /\ own_stream s -> c < length (chans s) ->
+  lookup (streams s) sid = None -> (forall r' c', ~ a2 s sid r' c') ->
+  (forall id, cursor chn id = match cursor (chan_at s c) id with Some p => Some p | None => if Nat.eqb sid id then Some q else None end) ->
+  tail chn = tail (chan_at s c) -> q <= tail chn -> s_ch stn = c -> (s_rule stn = None -> c = 0) ->
+  forall s', chans s' = upd (chans s) c chn -> streams s' = put (streams s) sid stn ->
+    (forall sid' r' c', sid' <> sid -> a2 s sid' r' c' -> a2 s' sid' r' c') ->
+    own_cur s' /\ own_stream s'.
+Proof.
+  intros [Icur Istr] Hc Hnew Hna2 Hcur1 Htail1 Hq Hch Hr0 s' Ech Estr Ha2.
+  assert (Hat : forall c', chan_at s' c' = if Nat.eqb c' c then chn else chan_at s c').
+  { intros c'. unfold chan_at. rewrite Ech. destruct (Nat.eqb c' c) eqn:E.
+    - apply Nat.eqb_eq in E. subst. now apply nth_upd_same.
+    - apply Nat.eqb_neq in E. now apply nth_upd_other. }
+  assert (Hnocur : forall c', c' < length (chans s) -> cursor (chan_at s c') sid = None).
+  { intros c' Hc'. destruct (cursor (chan_at s c') sid) as [p|] eqn:E; [|reflexivity].
+    destruct (Icur _ _ _ Hc' E) as [_ [(st & Hs & _)|(r' & Ha)]]; [congruence | destruct (Hna2 _ _ Ha)]. }
+  split.
+  - intros c' id p Hlt Hcur. rewrite Ech, length_upd in Hlt. rewrite Hat in *. rewrite Estr. destruct (Nat.eqb c' c) eqn:E.
+    + apply Nat.eqb_eq in E. subst c'. rewrite Hcur1 in Hcur. rewrite Htail1 in *.
+      destruct (cursor (chan_at s c) id) as [q0|] eqn:Eq.
+      * inversion Hcur; subst q0. destruct (Icur _ _ _ Hlt Eq) as [Hp Ho]. split; [exact Hp|].
+        assert (id <> sid) by (intros ->; rewrite (Hnocur _ Hlt) in Eq; discriminate).
+        destruct Ho as [(st' & Hs' & Hc')|(r' & Ha)]; [left; exists st'; now rewrite lookup_put_other | right; exists r'; now apply Ha2].
+      * destruct (Nat.eqb sid id) eqn:Ei; [|discriminate]. apply Nat.eqb_eq in Ei. subst id. inversion Hcur; subst p. split; [lia|].
+        left. exists stn. rewrite lookup_put_same. split; [reflexivity | assumption].
+    + destruct (Icur _ _ _ Hlt Hcur) as [Hp Ho]. split; [exact Hp|].
+      assert (id <> sid) by (intros ->; rewrite (Hnocur _ Hlt) in Hcur; discriminate).
+      destruct Ho as [(st' & Hs' & Hc')|(r' & Ha)]; [left; exists st'; now rewrite lookup_put_other | right; exists r'; now apply Ha2].
+  - intros sid' st' Hl'. rewrite Estr in Hl'. rewrite Ech, length_upd. rewrite Hat. destruct (Nat.eq_dec sid' sid) as [->|Hne].
+    + rewrite lookup_put_same in Hl'. inversion Hl'; subst st'. rewrite Hch, Nat.eqb_refl. split; [assumption|]. split; [|assumption].
+      rewrite Hcur1, (Hnocur _ Hc), Nat.eqb_refl. eauto.
+    + rewrite lookup_put_other in Hl' by assumption. destruct (Istr _ _ Hl') as (Hc' & (p & Hp) & Hn). split; [assumption|]. split; [|assumption].
+      destruct (Nat.eqb (s_ch st') c) eqn:E; [|eauto]. apply Nat.eqb_eq in E. rewrite E in *. rewrite Hcur1, Hp. eauto.
+Qed.
+
+Lemma no_a2_pc s sid a : lookup (adds s) sid = Some a -> (forall c, a_pc a <> A2 c) -> forall r c, ~ a2 s sid r c.
+Proof. intros Ha Hpc r c (a' & Ha' & _ & Hp). rewrite Ha in Ha'. inversion Ha'; subst. exact (Hpc _ Hp). Qed.
+Lemma no_a2_none s sid : lookup (adds s) sid = None -> forall r c, ~ a2 s sid r c.
+Proof. intros Ha r c (a' & Ha' & _). congruence. Qed.
+
+
+Section G2.
+Variable matches : nat -> msg -> bool.
+Notation tstep := (Steps.tstep matches).
+Notation Inv := (Inv.Inv matches).
+Notation targets := (Model.targets matches).
+Notation key_matches := (Model.key_matches matches).
 
 (* ---- the last message read is the last of `incoming` ---- *)
 Lemma g_last_step s l s' : tstep s l s' -> Inv s ->
@@ -50,9 +206,9 @@ Proof.
   unfold Model.targets.
   assert (G : forall l, NoDup (map fst l) -> (forall k c, In (k, c) l -> In (k, c) (senders s)) ->
                 NoDup (map snd (filter (fun p => key_matches (fst p) (IMsg m)) l))).
-  { induction l as [|[k c] l IH]; intros Hnd Hsub; cbn; [constructor|]. inversion Hnd as [|? ? H1 Hnd']; subst.
+  { induction l as [|[k c] l IH]; intros Hnd Hsub; cbn [filter map fst snd]; [constructor|]. inversion Hnd as [|? ? H1 Hnd']; subst.
     assert (IH' := IH Hnd' (fun k0 c0 H => Hsub k0 c0 (or_intror H))).
-    destruct (key_matches k (IMsg m)) eqn:Em; [|exact IH']. cbn. constructor; [|exact IH'].
+    destruct (key_matches k (IMsg m)) eqn:Em; [|exact IH']. cbn [filter map fst snd]. constructor; [|exact IH'].
     intros Hin. apply in_map_iff in Hin. destruct Hin as ([k' c'] & Ec & Hin). cbn in Ec. subst c'. apply filter_In in Hin.
     destruct Hin as [Hin Em']. cbn in Em'. apply H1. apply in_map_iff. exists (k', c). split; [|assumption]. cbn.
     pose proof (Hsub k c (or_introl eq_refl)) as Hkc. pose proof (Hsub k' c (or_intror Hin)) as Hkc'.
@@ -82,7 +238,134 @@ Proof.
   - inversion Hrd; subst. destruct (Hold _ _ H) as [H1 H2]. split.
     + intros c0 Hc0. apply H1. now right.
     + intros m ->. specialize (H2 m eq_refl). now inversion H2.
-  - (* async drop, sender: the reader is not pushing *) exfalso. eapply Hheld; [|eassumption]. rm_frame. congruence.
 Qed.
+
+Lemma Inv_own s : Inv s -> own_cur s /\ own_stream s.
+Proof. intros I. split; [exact (inv_cur _ _ I) | exact (inv_stream _ _ I)]. Qed.
+
+Lemma g_own_step s l s' : tstep s l s' -> Inv s -> own_cur s' /\ own_stream s'.
+Proof.
+  intros Hs I. pose proof (Inv_own _ I) as O. pose proof (inv_len _ _ I) as Hlen2.
+  assert (Hsoc : forall s1, length (chans s1) = length (chans s) -> (forall c, same_or_closed (chan_at s c) (chan_at s1 c)) ->
+                   streams s1 = streams s -> adds s1 = adds s -> own_cur s1 /\ own_stream s1).
+  { intros s1 El Hch Es Ea. apply (own_frame s); try assumption.
+    - intros c id _. rewrite (soc_cursor _ _ id (Hch c)), (soc_tail _ _ (Hch c)). split; [reflexivity | lia].
+    - now apply a2_same_adds. }
+  assert (Hsame : forall s1, chans s1 = chans s -> streams s1 = streams s -> (forall sid r c, a2 s sid r c -> a2 s1 sid r c) -> own_cur s1 /\ own_stream s1).
+  { intros s1 Ec Es Ha. apply (own_frame s); try assumption; [now rewrite Ec|]. intros c id _. unfold chan_at. rewrite Ec. split; [reflexivity | lia]. }
+  destruct Hs.
+  - apply Hsame; try reflexivity. tauto.
+  - apply Hsame; try reflexivity. tauto.
+  - apply Hsame; try reflexivity. tauto.
+  - apply Hsame; try reflexivity. tauto.
+  - (* push *) apply try_push_pushed in H0. destruct H0 as (Hl & Hr & _). apply (own_frame s); try assumption; tsimp; try reflexivity; try tauto.
+    + now rewrite chans_set_chan, length_upd.
+    + intros c0 id Hc0. autorewrite with chat. destruct (Nat.eq_dec c0 c) as [->|Hne].
+      * rewrite chan_at_set_same by assumption. unfold cursor, tail. rewrite Hr, Hl, app_length. split; [reflexivity | lia].
+      * rewrite chan_at_set_other by assumption. split; [reflexivity | lia].
+  - apply Hsame; try reflexivity. tauto.
+  - apply Hsame; try reflexivity. tauto.
+  - (* next, failure *) apply Hsoc; tsimp; try reflexivity; [apply length_close_all|]. intros c. autorewrite with chat. apply close_all_chan.
+  - (* add start *) apply Hsame; try reflexivity. intros sid' r' c'. apply fresh_spec in H. eapply a2_fwd_put; [reflexivity|]. intros a0 Ha0. destruct H as (_ & Hn & _). congruence.
+  - apply Hsame; try reflexivity. intros sid' r' c'. eapply a2_fwd_del; [reflexivity|]. intros a0 Ha0 c0. rewrite H in Ha0. inversion Ha0; subst. congruence.
+  - apply Hsame; try reflexivity. intros sid' r' c'. eapply a2_fwd_put; [reflexivity|]. intros a0 Ha0 c0. rewrite H in Ha0. inversion Ha0; subst. congruence.
+  - (* occupied *) destruct (inv_entry _ _ I _ _ H2) as [_ Hc]. subst c ch1 s1 s2.
+    set (ch1 := match a_q a with Some n => grow n (chan_at s (e_ch e)) | None => chan_at s (e_ch e) end).
+    assert (Et : tail ch1 = tail (chan_at s (e_ch e))) by (unfold ch1; destruct (a_q a); reflexivity).
+    assert (E1 : forall id, cursor (subscribe sid ch1) id =
+                   match cursor (chan_at s (e_ch e)) id with Some p => Some p | None => if Nat.eqb sid id then Some (tail (chan_at s (e_ch e))) else None end).
+    { intros id. rewrite cursor_subscribe, Et. unfold ch1. destruct (a_q a); reflexivity. }
+    assert (Hna : forall r' c', ~ a2 s sid r' c') by (eapply no_a2_pc; [eassumption|]; intros c0; congruence).
+    assert (Etl : tail (subscribe sid ch1) = tail (chan_at s (e_ch e))) by now rewrite tail_subscribe.
+    assert (Hq : tail (chan_at s (e_ch e)) <= tail (subscribe sid ch1)) by (rewrite Etl; lia).
+    pose proof (own_newrcv s sid (e_ch e) (subscribe sid ch1) (tail (chan_at s (e_ch e))) (mk_stream (Some (a_rule a)) (e_ch e) (seen s (e_ch e)))
+              O Hc (inv_ids _ _ I _ _ H) Hna E1 Etl Hq eq_refl ltac:(discriminate)) as K.
+    apply K; [reflexivity | reflexivity |].
+    intros sid' r' c' Hne. eapply a2_fwd_del; [reflexivity|]. intros a0 Ha0 c0. rewrite H in Ha0. inversion Ha0; subst. congruence.
+  - (* vacant *) tsimp. destruct O as [Icur Istr]. split.
+    + intros c id p Hlt Hcur. rewrite app_length in Hlt. cbn [length] in Hlt. autorewrite with chat in Hcur. autorewrite with chat.
+      destruct (Nat.eq_dec c (length (chans s))) as [->|Hne].
+      * rewrite chan_at_app_new in *. unfold cursor, subscribe, with_rcv, new_chan in Hcur. cbn in Hcur.
+        destruct (Nat.eqb sid id) eqn:E; [|discriminate]. apply Nat.eqb_eq in E. subst id. inversion Hcur; subst p. split; [lia|].
+        right. exists (a_rule a). exists (add_at a (A2 (length (chans s)))). rewrite lookup_put_same. repeat split.
+      * rewrite chan_at_app_old in * by lia. destruct (Icur _ _ _ ltac:(lia) Hcur) as [Hp Ho]. split; [exact Hp|].
+        destruct Ho as [Ho|(r' & Ha)]; [now left | right]. exists r'. eapply a2_fwd_put; [reflexivity | | exact Ha].
+        intros a0 Ha0 c0. rewrite H in Ha0. inversion Ha0; subst. congruence.
+    + intros sid' st' Hl'. destruct (Istr _ _ Hl') as (Hc' & (p & Hp) & Hn). rewrite app_length. cbn [length]. split; [lia|]. split; [|assumption].
+      autorewrite with chat. rewrite chan_at_app_old by assumption. eauto.
+  - (* add sender *) tsimp. destruct O as [Icur Istr]. destruct (inv_a2 _ _ I sid (a_rule a) c) as (_ & _ & _ & _ & Hcur0 & Hc & _); [exists a; tauto|].
+    pose proof (inv_ids _ _ I _ _ H) as Hnone. split.
+    + intros c' id p Hlt Hcur. autorewrite with chat in *. destruct (Icur _ _ _ Hlt Hcur) as [Hp Ho]. split; [exact Hp|].
+      destruct (Nat.eq_dec id sid) as [->|Hne].
+      * left. eexists. rewrite lookup_put_same. split; [reflexivity|]. cbn. destruct Ho as [(st' & Hs' & _)|(r' & a' & Ha' & _ & Hp')]; [congruence|].
+        rewrite H in Ha'. inversion Ha'; subst. congruence.
+      * destruct Ho as [(st' & Hs' & Hc')|(r' & Ha)]; [left; exists st'; now rewrite lookup_put_other | right]. exists r'.
+        eapply a2_fwd_del; [reflexivity | | exact Ha]. intros a0 Ha0 c0 Hpc. apply Hne. eapply (inv_a2_uniq _ _ I); [exact Ha | exists a0; eauto].
+    + intros sid' st' Hl'. autorewrite with chat. destruct (Nat.eq_dec sid' sid) as [->|Hne].
+      * rewrite lookup_put_same in Hl'. inversion Hl'; subst st'. cbn. split; [lia|]. split; [eauto | discriminate].
+      * rewrite lookup_put_other in Hl' by assumption. exact (Istr _ _ Hl').
+  - (* unfiltered *) apply fresh_spec in H. destruct H as (Hn1 & Hn2 & _).
+    assert (E1 : forall id, cursor (subscribe sid (chan_at s 0)) id =
+                   match cursor (chan_at s 0) id with Some p => Some p | None => if Nat.eqb sid id then Some (tail (chan_at s 0)) else None end).
+    { intros id. now rewrite cursor_subscribe. }
+    assert (Hq : tail (chan_at s 0) <= tail (subscribe sid (chan_at s 0))) by (rewrite tail_subscribe; lia).
+    pose proof (own_newrcv s sid 0 (subscribe sid (chan_at s 0)) (tail (chan_at s 0)) (mk_stream None 0 (seen s 0))
+              O ltac:(lia) Hn1 (no_a2_none _ _ Hn2) E1 eq_refl Hq eq_refl (fun _ => eq_refl)) as K.
+    apply K; [reflexivity | reflexivity |]. intros sid' r' c' _. tauto.
+  - (* poll *) destruct H as [Hl Hd]. apply try_recv_got in H0. destruct H0 as (p0 & Hc0 & Hn0 & Hlog & Hcl & Hci & Hco). tsimp.
+    destruct O as [Icur Istr]. destruct (Istr _ _ Hl) as (Hc & _ & Hnone). split.
+    + intros c id p Hlt Hcur. rewrite chans_set_chan, length_upd in Hlt. autorewrite with chat in *. destruct (Nat.eq_dec c (s_ch st)) as [->|Hne].
+      * rewrite chan_at_set_same in * by assumption. unfold tail. rewrite Hlog. destruct (Nat.eq_dec id sid) as [->|Hid].
+        -- rewrite Hci in Hcur. inversion Hcur; subst p. assert (p0 < length (log (chan_at s (s_ch st)))) by (apply nth_error_Some; congruence).
+           split; [lia|]. left. eexists. rewrite lookup_put_same. split; reflexivity.
+        -- rewrite (Hco _ Hid) in Hcur. destruct (Icur _ _ _ Hlt Hcur) as [Hp Ho]. split; [exact Hp|].
+           destruct Ho as [(st' & Hs' & Hc')|Ho]; [left; exists st'; now rewrite lookup_put_other | now right].
+      * rewrite chan_at_set_other in * by assumption. destruct (Icur _ _ _ Hlt Hcur) as [Hp Ho]. split; [exact Hp|].
+        destruct Ho as [(st' & Hs' & Hc')|Ho]; [left | now right]. exists st'. split; [|assumption]. rewrite lookup_put_other; [assumption|].
+        intros ->. rewrite Hl in Hs'. inversion Hs'; subst. congruence.
+    + intros sid' st' Hl'. rewrite chans_set_chan, length_upd. autorewrite with chat. destruct (Nat.eq_dec sid' sid) as [->|Hne].
+      * rewrite lookup_put_same in Hl'. inversion Hl'; subst st'. cbn. split; [assumption|]. split; [|assumption].
+        rewrite chan_at_set_same by assumption. eauto.
+      * rewrite lookup_put_other in Hl' by assumption. destruct (Istr _ _ Hl') as (Hc' & (p & Hp) & Hn). split; [assumption|]. split; [|assumption].
+        destruct (Nat.eq_dec (s_ch st') (s_ch st)) as [E|Hne2].
+        -- rewrite E in *. rewrite chan_at_set_same by assumption. rewrite (Hco _ Hne). eauto.
+        -- rewrite chan_at_set_other by assumption. eauto.
+  - exact O.
+  - (* drop *) destruct H as [Hl Hd]. exact (own_bury s sid st O Hl).
+  - destruct H as [Hl Hd]. exact (own_bury s sid st O Hl).
+  - (* clone *) destruct H as [Hl Hd]. apply fresh_spec in H0. destruct H0 as (Hn1 & Hn2 & _). pose proof O as O'. destruct O' as [Icur Istr].
+    destruct (Istr _ _ Hl) as (Hc & (p0 & Hp0) & Hnone). destruct (Icur _ _ _ Hc Hp0) as [Hle _].
+    assert (E1 : forall id, cursor (clone_rcv sid sid2 (chan_at s (s_ch st))) id =
+                   match cursor (chan_at s (s_ch st)) id with Some p => Some p | None => if Nat.eqb sid2 id then Some p0 else None end).
+    { intros id. rewrite cursor_clone. destruct (cursor (chan_at s (s_ch st)) id); [reflexivity|]. destruct (Nat.eqb sid2 id); [assumption | reflexivity]. }
+    assert (Et : tail (clone_rcv sid sid2 (chan_at s (s_ch st))) = tail (chan_at s (s_ch st))) by (unfold tail; now rewrite log_clone).
+    assert (Hq : p0 <= tail (clone_rcv sid sid2 (chan_at s (s_ch st)))) by (rewrite Et; exact Hle).
+    pose proof (own_newrcv s sid2 (s_ch st) (clone_rcv sid sid2 (chan_at s (s_ch st))) p0 st
+              O Hc Hn1 (no_a2_none _ _ Hn2) E1 Et Hq eq_refl Hnone) as K.
+    apply K; [reflexivity | reflexivity |]. intros sid' r' c' _. tauto.
+  - (* set capacity *) destruct H as [Hl Hd]. apply Hsoc; tsimp; try reflexivity; [now rewrite chans_set_chan, length_upd|].
+    intros c. destruct (Nat.eq_dec c (s_ch st)) as [->|Hne]; [|left; now rewrite chan_at_set_other].
+    destruct (inv_stream _ _ I _ _ Hl) as (Hc & _). rewrite chan_at_set_same by assumption. left.
+    (* grow changes neither cursors nor the log: same_or_closed is too strong a word here, so go through the frame directly *)
+    admit.
+  - apply Hsame; try reflexivity. tauto.
+  - destruct H as [Hl Hd]. exact (own_bury s sid st O Hl).
+  - (* async drop, subs, done *) pose proof (rm_apply_frame _ _ _ _ H3) as (_ & Estr & Eadd & _).
+    assert (O1 : own_cur s1 /\ own_stream s1).
+    { apply Hsoc; try assumption; [|intros c; eapply rm_apply_chan; eassumption]. apply rm_apply_spec, rm_spec_tables in H3. tauto. }
+    assert (Hl1 : lookup (streams s1) sid = Some st) by now rewrite Estr.
+    exact (own_bury s1 sid st O1 Hl1).
+  - (* wait *) pose proof (rm_apply_frame _ _ _ _ H3) as (_ & Estr & Eadd & _). apply Hsoc; tsimp; try assumption; [|intros c0; eapply rm_apply_chan; eassumption].
+    apply rm_apply_spec, rm_spec_tables in H3. tauto.
+  - (* async drop, sender *)
+    assert (O1 : own_cur (rm_sender s r c) /\ own_stream (rm_sender s r c)).
+    { apply Hsoc; try reflexivity; [unfold rm_sender; now rewrite chans_set_chan, length_upd | intros c0; apply rm_sender_chan]. }
+    exact (own_bury (rm_sender s r c) sid st O1 H).
+  - pose proof (rm_apply_frame _ _ _ _ H1) as (_ & Estr & Eadd & _). apply Hsoc; tsimp; try assumption; [|intros c0; eapply rm_apply_chan; eassumption].
+    apply rm_apply_spec, rm_spec_tables in H1. tauto.
+  - pose proof (rm_apply_frame _ _ _ _ H1) as (_ & Estr & Eadd & _). apply Hsoc; tsimp; try assumption; [|intros c0; eapply rm_apply_chan; eassumption].
+    apply rm_apply_spec, rm_spec_tables in H1. tauto.
+  - apply Hsoc; tsimp; try reflexivity; [unfold rm_sender; now rewrite chans_set_chan, length_upd | intros c0; apply rm_sender_chan].
+Admitted.
 
 End G2.
